@@ -246,30 +246,33 @@ def _api_case(R, n, symm, cells, tag, only, join=False, reduced=False):
             other = cooler.Cooler(p2 + "::/other").matrix(balance=False)
             inner_k = 0
             combos = (API_COMBOS[1::2] if reduced else API_COMBOS) + (JOIN_COMBOS if join else [])
+            # ALL selectors are taken from their Cooler objects first and queried afterwards (a selector keeps its own options)
+            def _mk(clr, out, cs):
+                if out == "dense":
+                    return clr.matrix(balance=False, chunksize=cs)
+                if out == "sparse":
+                    return clr.matrix(balance=False, sparse=True, chunksize=cs)
+                if out == "dense:score":
+                    return clr.matrix(field="score", balance=False, chunksize=cs)
+                if out == "sparse:score":
+                    return clr.matrix(field="score", balance=False, sparse=True, chunksize=cs)
+                if out == "dense:weight":
+                    return clr.matrix(balance=True, chunksize=cs)
+                if out == "sparse:KR":
+                    return clr.matrix(balance="KR", sparse=True, chunksize=cs)
+                if out == "pixels":
+                    return clr.matrix(balance=False, as_pixels=True, chunksize=cs)
+                if out == "pixels+index":
+                    return clr.matrix(balance=False, as_pixels=True, ignore_index=False, chunksize=cs)
+                if out == "pixels+join":
+                    return clr.matrix(balance=False, as_pixels=True, join=True, chunksize=cs)
+                return None
+            sels = {(store, out, cs): _mk(srcs[store], out, cs) for store, out, cs in combos if store in srcs}
             for store, out, cs in combos:
                 if store not in srcs:
                     continue
                 clr = srcs[store]
-                if out == "dense":
-                    sel = clr.matrix(balance=False, chunksize=cs)
-                elif out == "sparse":
-                    sel = clr.matrix(balance=False, sparse=True, chunksize=cs)
-                elif out == "dense:score":
-                    sel = clr.matrix(field="score", balance=False, chunksize=cs)
-                elif out == "sparse:score":
-                    sel = clr.matrix(field="score", balance=False, sparse=True, chunksize=cs)
-                elif out == "dense:weight":
-                    sel = clr.matrix(balance=True, chunksize=cs)
-                elif out == "sparse:KR":
-                    sel = clr.matrix(balance="KR", sparse=True, chunksize=cs)
-                elif out == "pixels":
-                    sel = clr.matrix(balance=False, as_pixels=True, chunksize=cs)
-                elif out == "pixels+index":
-                    sel = clr.matrix(balance=False, as_pixels=True, ignore_index=False, chunksize=cs)
-                elif out == "pixels+join":
-                    sel = clr.matrix(balance=False, as_pixels=True, join=True, chunksize=cs)
-                else:
-                    sel = None
+                sel = sels[(store, out, cs)]
                 for (i0, i1) in wins:
                     for (j0, j1) in wins:
                         w = (i0, i1, j0, j1)
